@@ -297,6 +297,10 @@ def run(tier: str, only=None) -> core.Result:
             continue
         out = explorer.explore(RUN, cfgs, fidelity=True)
         sched.absorb(res, name, RUN, out, cfgs)
+    if not only or "conformance" in only:
+        from . import c05_conf
+
+        c05_conf.add_conformance_part(res, tier)
     res.coverage["exhaustive"] = True
     res.coverage["rule"] = (
         "streams = all sequences of <=L lines over the line alphabet (responses, errors, notifications, requests with "
